@@ -861,13 +861,52 @@ class NArr:
                     self.labels, self.dask)
 
     def __getitem__(self, k):
+        """numpy basic indexing with slices and one Ellipsis (no integers, no fancy indexing)"""
         if not isinstance(k, tuple):
             k = (k,)
-        if len(k) == 2 and k[0] is Ellipsis and isinstance(k[1], slice):
-            return self._lastaxis_slice(k[1])
-        if len(k) == 1 and isinstance(k[0], slice) and self.ndim == 1:
-            return self._lastaxis_slice(k[0])
-        raise EngineUnsupported(f"NArr indexing {k!r}")
+        if not all(x is Ellipsis or isinstance(x, slice) for x in k):
+            raise EngineUnsupported(f"NArr indexing {k!r}")
+        if sum(1 for x in k if x is Ellipsis) > 1:
+            raise IndexError("an index can only have a single ellipsis")
+        nd = self.ndim
+        if Ellipsis in k:
+            e = k.index(Ellipsis)
+            fill = nd - (len(k) - 1)
+            k = k[:e] + (slice(None),) * fill + k[e + 1:]
+        else:
+            k = k + (slice(None),) * (nd - len(k))
+        if len(k) != nd:
+            raise IndexError("too many indices for array")
+        maps = []
+        shape = []
+        for ax, sl in enumerate(k):
+            n = self.shape[ax]
+            if sl.start is None and sl.stop is None and sl.step is None:
+                maps.append(None)
+                shape.append(n)
+                continue
+            r = norm_slice(sl, n)
+            if isinstance(r[0], str):
+                nz = r[1]
+                maps.append(("rev", nz))
+                shape.append(n)
+            else:
+                a, sz = r
+                maps.append(("off", a))
+                shape.append(mk_int(sz))
+        old = self
+
+        def f(p):
+            q = []
+            for ax, mp in enumerate(maps):
+                if mp is None:
+                    q.append(p[ax])
+                elif mp[0] == "rev":
+                    q.append(mp[1] - 1 - p[ax])
+                else:
+                    q.append(p[ax] + mp[1])
+            return old._elem(tuple(q))
+        return NArr(tuple(shape), f, self.labels, self.dask)
 
     def _bin(self, o, op, refl=False):
         if isinstance(o, (int, float)) and not isinstance(o, bool):
@@ -1026,6 +1065,13 @@ class NPModel:
         fn = z3.Function(f"NPsum!{next(_uid)}", *([z3.IntSort()] * a.ndim), symx.Val)
         out = NArr(a.shape, lambda p: fn(*p), a.labels, a.dask)
         out.prefix_of = (a, fn)
+        return out
+
+    @staticmethod
+    def log(a):
+        LOG = z3.Function("LOG", symx.Val, symx.Val)
+        out = NArr(a.shape, lambda p: LOG(a._elem(p)), a.labels, a.dask)
+        out.log_of = a
         return out
 
     @staticmethod
